@@ -68,6 +68,81 @@ func TestVerifC04Core(t *testing.T) {
 			rec.sample("window-edge", 2, scenarioBrief(&sc))
 		}
 
+		// ---- exhaustive fates around a warmed-up flight, congestion control on ------
+		// Fates {deliver, drop, arrive just after the sender's RTO, arrive 3 RTOs
+		// late} for K0 data datagrams and K1 acknowledgement datagrams in
+		// mid-transfer: this is what puts a timeout loss and a fast or early
+		// retransmission into one and the same flush.
+		{
+			K0, K1 := 4, env.pickN(3, 4)
+			K := K0 + K1
+			nvec := 1
+			for i := 0; i < K; i++ {
+				nvec *= 4
+			}
+			const block = 512
+			for cfgi := 0; cfgi < env.pickN(4, 8); cfgi++ {
+				for b0 := 0; b0 < nvec; b0 += block {
+					idx := caseIdx
+					caseIdx++
+					if !env.mine(idx) {
+						continue
+					}
+					resend, interval, delay := 1+cfgi%2, []int{10, 40}[(cfgi/2)%2], []int{5, 30}[cfgi/4]
+					desc := map[string]any{"part": "mid-flight-fates-cwnd", "case": idx, "K_data": K0, "K_ack": K1, "resend": resend, "interval": interval, "delay": delay, "vectors": [2]int{b0, b0 + block}}
+					rec.beginCase(desc)
+					rec.guard(desc, func() {
+						for v := b0; v < b0+block && v < nvec; v++ {
+							fates := make([]int, K)
+							x := v
+							for i := range fates {
+								fates[i] = x & 3
+								x >>= 2
+							}
+							rng := rec.seed(uint64(cfgi), 45)
+							frng := newRng(uint64(v), 46)
+							cfg := coreCfg{SndWnd: 32, RcvWnd: 32, NoDelay: 1, Interval: interval, Resend: resend, NC: 0, Stream: false, Style: 0, Mtu: 200}
+							sc := coreScenario{Case: idx, Part: "mid-flight-fates-cwnd", CfgA: cfg, CfgB: cfg,
+								AppA: appScript{TotalBytes: 40 * cfg.mss(), ReadBufs: []int{65536}},
+								AppB: appScript{ReadBufs: []int{65536}},
+								Net:  netProfile{Name: "scripted", DelayMin: delay}, Writes: "mss-edge"}
+							sc.LimitMs = 120000
+							const skip = 8 // let the congestion window open first
+							runCoreScenario(rec, &sc, rng, func(sim *simCore) {
+								sim.fate = func(dir, nth int, now int64, data []byte) []int {
+									g := nth - skip
+									var f int
+									switch {
+									case g < 0:
+										return []int{delay}
+									case dir == 0 && g < K0:
+										f = fates[g]
+									case dir == 1 && g < K1:
+										f = fates[K0+g]
+									default:
+										return []int{delay}
+									}
+									rto := int(sim.ends[0].k.rx_rto)
+									switch f {
+									case 1:
+										return nil
+									case 2:
+										return []int{rto - delay + frng.intn(interval+2)}
+									case 3:
+										return []int{delay + 3*rto + 50}
+									}
+									return []int{delay}
+								}
+							})
+							rec.eval(1)
+							rec.count("cwnd_fate_vectors_run", 1)
+						}
+						rec.nontrivial(hashAny(desc))
+					})
+				}
+			}
+		}
+
 		// ---- adversarial peer ----------------------------------------------------
 		for q := 0; q < env.pickN(480, 16000); q++ {
 			idx := caseIdx
